@@ -37,6 +37,44 @@ class C03(E1Prop):
             return op
         self.gen.g_comment = g_comment
 
+    def next_op(self, w, rng, step, nsteps):
+        if step == 0:
+            self.script = []
+            dests = ops.dest_branches(w.cfg)
+            devs = [d for d in dests if d.startswith('development/')]
+            if len(devs) >= 2 and rng.random() < 0.45:
+                # story: A (early destination) gets its integration
+                # branches built and green, meanwhile B lands on a later
+                # destination, then A is evaluated again
+                lo = rng.choice(dests[:-1])
+                later = [d for d in devs if dests.index(d) > dests.index(lo)]
+                hi = rng.choice(later) if later else devs[-1]
+                seq = [
+                    {'op': 'open_pr', 'actor': 'alice', 'src':
+                     'bugfix/TEST-901', 'dst': lo, 'kind': 'new'},
+                    {'op': 'eval', 'p': 0},
+                    {'op': 'open_pr', 'actor': 'bob', 'src':
+                     'feature/TEST-902', 'dst': hi, 'kind': 'new'},
+                    {'op': 'eval', 'p': 1},
+                    {'op': 'ci_green_all', 'which': ['src', 'w']},
+                    {'op': 'eval', 'p': rng.choice([1, 1, 0])},
+                    {'op': 'ci_green_all', 'which': rng.choice(
+                        [['q'], ['src', 'w', 'q']])},
+                    {'op': 'deliver_all'},
+                    {'op': 'eval', 'p': 0},
+                    {'op': 'eval', 'p': 1},
+                ]
+                for o in seq:
+                    o['dt'] = rng.choice([1, 5, 30])
+                # sprinkle a little noise
+                for i in range(rng.randint(0, 3)):
+                    seq.insert(rng.randrange(2, len(seq)),
+                               self.gen.next(w))
+                self.script = seq
+        if getattr(self, 'script', None):
+            return self.script.pop(0)
+        return self.gen.next(w)
+
     def check_job(self, w, rec):
         if not w.use_queue or not w.build_key:
             return
